@@ -382,7 +382,9 @@ def run_harness(driver, inp, out, opts=None, race=False, timeout=1200, env_extra
     if "WARNING: DATA RACE" in p.stdout:
         races = ["WARNING: DATA RACE" + x.split("==================")[0] for x in p.stdout.split("WARNING: DATA RACE")[1:]]
     if p.returncode != 0:
-        raise Infra("harness driver %s failed (rc=%d):\n%s" % (driver, p.returncode, p.stdout[-4000:]))
+        fatal = re.search(r"(fatal error: [^\n]*|runtime: goroutine stack exceeds[^\n]*|runtime: out of memory[^\n]*)", p.stdout)
+        head = ("[" + fatal.group(1) + "] ") if fatal else ""
+        raise Infra("harness driver %s failed (rc=%d): %s\n%s\n...\n%s" % (driver, p.returncode, head, p.stdout[:1200], p.stdout[-2500:]))
     return p.stdout, races
 
 
